@@ -52,21 +52,19 @@ def run(tier, seed, replay):
         quick = tier == "quick"
         if replay:
             rec = json.load(open(replay))
-            cases = [{"id": 0, "src": rec["case"]["src"], "inputs": [rec["case"]["input"]], "masks": [0, ALL_OFF, rec["case"].get("mask", 0)]}]
+            cases = [{"id": 0, "src": rec["case"]["src"], "inputs": [rec["case"]["input"]], "masks": [ALL_OFF, 0, rec["case"].get("mask", 0)]}]
         else:
             cases = []
             for i in range(900 if quick else 12000):
                 src = jqgen.c04_program(r) if r.randrange(5) else "2 as $x | def g(p): [p, p]; def h($a): $a, .; label $l | " + jqgen.program(r, 3)
                 src = jqgen.strip_context(src, r)
-                masks = [0, ALL_OFF] + [1 << b for b in range(NOPT)] + [r.randrange(1, ALL_OFF) for _ in range(2 if quick else 6)]
+                masks = [ALL_OFF, 0] + [1 << b for b in range(NOPT)] + [r.randrange(1, ALL_OFF) for _ in range(2 if quick else 6)]
                 cases.append({"id": i, "src": src, "inputs": r.sample(uni, 3 if quick else 5), "masks": masks})
             cor = evalfam.corpus_cases(work, vh)
             for c in (r.sample(cor, 150) if quick else cor):
                 cases.append({"id": len(cases), "src": c["src"], "inputs": c["inputs"][:3],
-                              "masks": [0, ALL_OFF] + [1 << b for b in range(NOPT)]})
-        vc.write_ndjson(work.path("oc.cases.ndjson"), cases)
-        vc.sh([vh, "optcmp", "-in", work.path("oc.cases.ndjson"), "-out", work.path("oc.out.ndjson")], timeout=3600)
-        results = vc.read_ndjson(work.path("oc.out.ndjson"))
+                              "masks": [ALL_OFF, 0] + [1 << b for b in range(NOPT)]})
+        results = vc.run_restartable([vh, "optcmp"], cases, work, "oc")
         cnt = {"programs": 0, "config_runs": 0, "agree": 0, "long": 0, "compile_error": 0}
         vmcases = []
         for case, res in zip(cases, results):
@@ -74,7 +72,9 @@ def run(tier, seed, replay):
                 continue
             cnt["programs"] += 1
             cfgs = res["configs"]
-            base = next(c for c in cfgs if c["mask"] == ALL_OFF)
+            base = next((c for c in cfgs if c["mask"] == ALL_OFF and (not res.get("partial") or c is not cfgs[-1])), None)
+            if base is None:
+                continue
             for c in cfgs:
                 if "panic" in c:
                     rep.violation("compiler panic with rewrites %s off: %r: %s" % (mask_names(c["mask"]), case["src"], c["panic"]),
@@ -87,7 +87,7 @@ def run(tier, seed, replay):
                 if "cerr" in c:
                     cnt["compile_error"] += 1
                     continue
-                for j, (run_c, run_b) in enumerate(zip(c["runs"], base["runs"])):
+                for j, (run_c, run_b) in enumerate(zip(c.get("runs", []), base["runs"])):
                     rep.count("evaluations")
                     cnt["config_runs"] += 1
                     if "panic" in run_c:
